@@ -42,6 +42,7 @@ class Sched:
         self.attached = None
         self.killed = set()
         self.fail = {}
+        self.holds = []
 
     # participant side ---------------------------------------------------
     def me(self):
@@ -90,6 +91,11 @@ class Sched:
                     return trace, "deadlock"
                 p = self.schedule_fn(trace, enabled)
                 trace.append((p, tuple(enabled)))
+                # participants parked at a ("hold",) gate wait voluntarily
+                # (a long-running phase): switching away from them is not a
+                # preemption
+                self.holds.append(frozenset(
+                    q for q in enabled if self.waiting[q][0] == ("hold",)))
                 self.step += 1
                 self.go = p
                 self.cv.notify_all()
